@@ -38,7 +38,7 @@ MINIMUMS = {
     "thorough": {"distinct_nontrivial": 60000, "streams_decoded": 800000, "streams_vs_reference": 800000, "near_pairs": 120000, "bucket_entries": 300000},
 }
 N = {"quick": 2400, "thorough": 96000}
-TIMEOUT = {"quick": 900, "thorough": 10800}
+TIMEOUT = {"quick": 2400, "thorough": 14400}
 
 TAP = StreamTap()
 
